@@ -167,8 +167,11 @@ pub fn check_geometry(h: &CaseH, d: &Data, m: &Model, what: &str) -> Verdict {
                 // azimuth convention: S=0, E=+90 of the outward normal
                 let az = en[0].atan2(-en[1]).to_degrees();
                 let diff = ((w.geometry.azimuth as f64 - az + 540.0).rem_euclid(360.0) - 180.0).abs();
+                // the statement bounds positions (1 cm), not angles: an azimuth error of 1 cm over the wall's length
+                // is what it allows (the library's f32 acos loses 0.02 degrees near 0 and 180 degrees all by itself)
+                let az_tol = (0.01 / (dx * dx + dy * dy).sqrt().max(0.1)).to_degrees().clamp(0.03, 1.0);
                 if ccw {
-                    vensure!(diff < 0.02, "C03:azimuth", "{}: wall {:?}: azimuth {} but the outward normal points to {:.3} (S=0, E=+90)", what, bw.name, w.geometry.azimuth, az);
+                    vensure!(diff < az_tol, "C03:azimuth", "{}: wall {:?}: azimuth {} but the outward normal points to {:.3} (S=0, E=+90)", what, bw.name, w.geometry.azimuth, az);
                 }
             }
             (Some("TOP"), None) | (Some("BOTTOM"), None) => {
@@ -301,6 +304,28 @@ fn check_bld(h: &CaseH, b: &Bld) -> Verdict {
             if s.height_attr.map_or(false, |v| v != 0.0 && (v - fl.height).abs() > 0.05) {
                 h.class("space-height-attribute-differs-from-storey");
             }
+        }
+    }
+    // shades against the building as generated (check_geometry above takes the parsed document as its source):
+    // the area of every shade equals the area of the source polygon, corner order included
+    for sh in &b.shades {
+        let (name, area) = match sh {
+            gb::ShadeB::Rect { name, width, height, .. } => (name, (*width as f64) * (*height as f64)),
+            gb::ShadeB::Verts { name, v } => {
+                let mut acc = [0.0f64; 3];
+                for i in 0..v.len() {
+                    let (p, q) = (v[i], v[(i + 1) % v.len()]);
+                    let (p, q) = ([p.0 as f64, p.1 as f64, p.2 as f64], [q.0 as f64, q.1 as f64, q.2 as f64]);
+                    let c = ora::cross(p, q);
+                    acc = [acc[0] + c[0], acc[1] + c[1], acc[2] + c[2]];
+                }
+                (name, 0.5 * ora::norm(acc))
+            }
+        };
+        if let Some(ms) = m.shades.iter().find(|x| &x.name == name) {
+            let got = ora::shoelace(&ms.geometry.polygon.iter().map(|p| crate::gen::geom::P2 { x: p.x, y: p.y }).collect::<Vec<_>>()).abs();
+            h.class(if matches!(sh, gb::ShadeB::Verts { v, .. } if v.len() >= 10) { "shade/area-checked/10+corners" } else { "shade/area-checked" });
+            vensure!((got - area).abs() <= 2e-3 * area + 0.02, "C03:shade-area", "shade {:?}: area {:.4} but the source polygon has {:.4} (corners taken in another order?)", name, got, area);
         }
     }
     let rotated_offset = b.all_spaces().iter().any(|(_, s)| s.azimuth != 0.0 && (s.x != 0.0 || s.y != 0.0));
